@@ -105,9 +105,9 @@ func cmdCheck(args []string) int {
 		seed, _ = strconv.Atoi(s)
 	}
 	if *timeout == 0 {
-		*timeout = 10
+		*timeout = 20
 		if *tier == "thorough" {
-			*timeout = 40
+			*timeout = 60
 		}
 	}
 	t0 := time.Now()
